@@ -508,7 +508,7 @@ func c14Aliasing(c *fw.Ctx, env types.EnvType, r *rand.Rand, id string) {
 		switch base.K {
 		case canon.Vec, canon.List:
 			n := len(base.L)
-			srcs = []string{"base", "(vec base)", "(seq base)", "(rest base)", "(concat base)", "(apply list base)", "(with-meta base {:m 1})", "(take 2 base)", "(drop 1 base)", "(cons 0 base)", "(rest (cons 0 base))", "(map identity base)", "(apply vector base)"}
+			srcs = []string{"base", "(vec base)", "(seq base)", "(rest base)", "(concat base)", "(apply list base)", "(with-meta base {:m 1})", "(with-meta base {:type :point})", "(with-meta base {:type :other :doc \"d\"})", "(with-meta (with-meta base {:type :point}) nil)", "(take 2 base)", "(drop 1 base)", "(cons 0 base)", "(rest (cons 0 base))", "(map identity base)", "(apply vector base)"}
 			if base.K == canon.Vec {
 				for k := 0; k <= n; k++ {
 					srcs = append(srcs, fmt.Sprintf("(subvec base 0 %d)", k), fmt.Sprintf("(subvec base %d)", k))
@@ -518,9 +518,9 @@ func c14Aliasing(c *fw.Ctx, env types.EnvType, r *rand.Rand, id string) {
 				}
 			}
 		case canon.Map:
-			srcs = []string{"base", "(merge base {})", "(hash-map)", "{}", "(dissoc {:q 1} :q)", "[(hash-map)]", "[{}]", "{:m (hash-map)}", "{:m {}}", "(merge nil (hash-map))", "(merge {} base)", "(dissoc (assoc base :zz 1) :zz)", "(with-meta base {:m 1})", "(assoc base :zz nil)", "(conj base :zz nil)", "(rename-keys base {})", "(dissoc base :a)", "(apply hash-map (apply concat (map (fn (k) (list k (get base k))) (keys base))))"}
+			srcs = []string{"base", "(merge base {})", "(hash-map)", "{}", "(dissoc {:q 1} :q)", "[(hash-map)]", "[{}]", "{:m (hash-map)}", "{:m {}}", "(merge nil (hash-map))", "(merge {} base)", "(dissoc (assoc base :zz 1) :zz)", "(with-meta base {:m 1})", "(with-meta base {:type :point})", "(with-meta base {:type :other :doc \"d\"})", "(with-meta (with-meta base {:type :point}) nil)", "(assoc base :zz nil)", "(conj base :zz nil)", "(rename-keys base {})", "(dissoc base :a)", "(apply hash-map (apply concat (map (fn (k) (list k (get base k))) (keys base))))"}
 		case canon.Set:
-			srcs = []string{"base", "(set (seq base))", "(set nil)", "(hash-set)", "(set [])", "#{}", "(dissoc (hash-set :q) :q)", "[(set nil)]", "[#{}]", "{:s (set nil)}", "{:s #{}}", "{:s (hash-set)}", "(dissoc (conj base :zz) :zz)", "(with-meta base {:m 1})", "(conj base :zz)", "(set (vec base))"}
+			srcs = []string{"base", "(set (seq base))", "(set nil)", "(hash-set)", "(set [])", "#{}", "(dissoc (hash-set :q) :q)", "[(set nil)]", "[#{}]", "{:s (set nil)}", "{:s #{}}", "{:s (hash-set)}", "(dissoc (conj base :zz) :zz)", "(with-meta base {:m 1})", "(with-meta base {:type :point})", "(with-meta base {:type :other :doc \"d\"})", "(with-meta (with-meta base {:type :point}) nil)", "(conj base :zz)", "(set (vec base))"}
 		}
 		var vals []types.MalType
 		var kept []string
